@@ -219,7 +219,7 @@ func TestC07(t *testing.T) {
 	c := rt.Get()
 	modes := []string{"ordered", "simul", "estfirst", "race-est", "race-ka", "race-close", "race-bad"}
 	rel := [][2]string{{"lt", "lt"}, {"gt", "lt"}, {"eq", "lt"}, {"eq", "gt"}, {"lt", "gt"}, {"gt", "gt"}, {"far-lt", "lt"}, {"far-gt", "lt"}, {"far-lt", "gt"}, {"far-gt", "gt"}}
-	seeds := c.N(48, 1500)
+	seeds := c.N(48, 3000)
 	idx := 0
 	for _, rl := range rel {
 		for _, m := range modes {
